@@ -2,16 +2,21 @@
 
 The full trace machine: long seeded histories of update / regenerate / mh / mala / hmc /
 lane indexing / resample_vectorized_trace / jit round trips / two-path telescoping updates, with
-faults (exception at a model site, user errors, cache loss, re-entrant GFI use) between them.
+faults (exception at a model site, user errors, cache loss, re-entrant GFI use) between them. Histories
+are trees: a trace can be kept (fork) and resumed later (checkout) after other operations consumed
+it, and no operation may modify the trace / constraint map it was given.
 After every step the touched trace is re-derived from PPL-ref; after a failed operation the
 durable state must be intact and the next operation must succeed.
 """
-from sim import gfi, ref, progs, selections, tracemachine as tm
+from sim import gfi, ref, progs, selections, tracemachine as tm, bare
 
 PROP = "C05"
 
 
 def gen_case(rng, tier):
+    if rng.random() < 0.12:
+        # a bare Distribution / Vmap-of-Distribution used directly through the GFI (sim/bare.py)
+        return bare.gen_case(rng, tier, "mixed")
     c = gfi.gen_model_case(rng, tier, depth=rng.choice([0, 1, 1, 2]))
     model = c["model"]
     paths = ref.model_paths(model)
@@ -24,7 +29,7 @@ def gen_case(rng, tier):
             ops.append(tm.gen_fault(rng, model))
             continue
         k = rng.choice(["update", "update", "regenerate", "regenerate", "mh", "mh", "mala", "hmc",
-                        "jit_roundtrip", "vectorise", "telescope"])
+                        "jit_roundtrip", "vectorise", "telescope", "fork", "checkout"])
         key = rng.randint(0, 2**30)
         if k == "update":
             ops.append({"op": "update", "h": round(rng.uniform(-1.2, 1.2), 3) if rng.random() < 0.5 else None,
@@ -44,6 +49,10 @@ def gen_case(rng, tier):
             ops.append(op)
         elif k == "jit_roundtrip":
             ops.append({"op": "jit_roundtrip"})
+        elif k == "fork":
+            ops.append({"op": "fork"})
+        elif k == "checkout":
+            ops.append({"op": "checkout", "i": rng.randint(0, 3)})
         elif k == "vectorise":
             n_l = rng.randint(1, 4)
             ops.append({"op": "vectorise", "n": n_l, "how": rng.choice(["index", "resample"]), "i": rng.randint(0, 3),
@@ -58,7 +67,10 @@ def gen_case(rng, tier):
 
 
 def run_case(case):
+    if "bare" in case:
+        return bare.run_case(case)
     return tm.run_history(case)
 
 
-shrink = tm.shrink_history
+def shrink(case):
+    return bare.shrink(case) if "bare" in case else tm.shrink_history(case)
